@@ -378,7 +378,10 @@ func (an *Analysis) handleStructFields(typ *types.Struct, ctx context) []StructF
 			jsonName, _, _ := strings.Cut(tag.Get("json"), ",")
 			if st, isStruct := fieldType.(*Struct); isStruct && jsonName == "" {
 				log.Printf("gomacro: embedded struct field %s will be flattened", field.Name())
-				out = append(out, st.Fields...)
+				// the node of the embedded struct may still be under construction (its fields are
+				// not set yet when it reaches the outer struct through an union) : read its fields
+				// from the Go type
+				out = append(out, an.handleStructFields(st.Name.Underlying().(*types.Struct), ctx)...)
 				continue
 			} else {
 				log.Printf("gomacro: field %s: embedding will be ignored", field.Name())
